@@ -167,7 +167,15 @@ def C16(ctx):
         RO.check_no_use_after_release(ctx, u, [f for f in u.functions if f.uq.startswith("frg::")])
     RHO.check_holders(ctx, uo, HOLDERS)
     RR.check_radix_dtor(ctx, ur)
-    return ("Structural clauses of C16. Not decided: exactly-once as a count over arbitrary histories.")
+    return ("Structural clauses of C16 over vector, small_vector, dyn_array, list, hash_map, basic_string, unique_ptr, "
+            "unique_memory, optional, expected, variant, manual_box and the radix tree: every allocator block escapes to an "
+            "owner, is returned, handed to a parameter that can own it, or is freed on every path (O1); allocating classes have "
+            "a releasing destructor and no implicit shallow copy (O2); deallocate sizes equal allocation sizes (O3); element "
+            "buffers are released only after their live range was destroyed (O4); growth relocates exactly the live range (O5); "
+            "the engaged-flag typestate of the holders (O6: construct only into empty storage, destroy only a live object, flag == "
+            "storage at exits); nothing is touched through a pointer after its release (O7); the radix destructor destroys "
+            "exactly the entries whose bit is set and releases both node kinds; every member is well-formed (W1). Not decided: "
+            "exactly-once as a count over arbitrary histories; radix erase leaks by design (DESIGN.md §3 C16).")
 
 
 def C14(ctx):
@@ -243,7 +251,11 @@ def C20(ctx):
     for f in uf.fns(uq="frg::printf_format"):
         sd = [p["d"] for p in f.params() if p["t"].replace(" ", "") == "constchar*"][0]
         RP.check_loop_progress(ctx, "R.loop-progress", f, None, default_vars=(sd,))
-    return ("Structural clauses of C20. Not decided: absence of all undefined behaviour; bounds of the caller's arg_list.")
+    return ("Structural clauses of C20: NUL-terminated-cursor typestate of printf_format (every advance / look-ahead justified "
+            "by characters verified non-NUL), bounded subscripts of format views, API-only tokenizer, overflow-safe sub_string "
+            "assertion and bounded view searches, digit accumulators unsigned / overflow-checked / bounded so that acc*10+9 fits, "
+            "positional-argument cache index and monotone consumed-argument count in pop_arg, no unconditional recursion, loop "
+            "progress. Not decided: absence of all undefined behaviour; bounds of the caller's arg_list.")
 
 
 def C19(ctx):
@@ -330,3 +342,13 @@ def C08(ctx):
 
 
 PROPS = {"C06": C06, "C07": C07, "C08": C08, "C01": C01, "C02": C02, "C03": C03, "C17": C17, "C19": C19, "C20": C20, "C15": C15, "C18": C18, "C14": C14, "C13": C13, "C16": C16, "C10": C10, "C09": C09, "C11": C11, "C12": C12, "C05": C05, "C04": C04}
+
+ASSUMPTIONS = [
+    "clang 14's parser, template instantiation, constant evaluator and CFG construction are correct for the instantiation units",
+    "the witness types of tu/witness.hpp (Elem with non-trivial special members, Alloc, Mutex, five slab policies) stand for any "
+    "conforming template argument; members that are not instantiated by the units are not analysed",
+    "assertion failure arms (FRG_ASSERT -> frg_panic / __builtin_trap) do not return",
+    "access paths do not alias beyond `this`, parameters and once-initialised locals (frigg's code is alias-poor); bindings of "
+    "virtually inlined helper parameters are followed",
+    "each rule decides a named structural clause that is a necessary condition of the property, not the behaviour itself",
+]
